@@ -2,7 +2,8 @@
 
 view(bytes, universe) -> {
   "wellformed": bool,            every .xml/.rels part parses (expat)
-  "present":  [..]               the strings of `universe` that occur anywhere in any part (decompressed bytes)
+  "present":  [..]               the strings of `universe` that occur anywhere in any part (decompressed bytes, or
+                                 as the concatenated runs of a string item / inline string)
   "sst":      [..]               the <si> items of xl/sharedStrings.xml in order (concatenated <t> texts)
   "has_part": bool               xl/sharedStrings.xml is in the archive
   "has_rel":  bool               xl/_rels/workbook.xml.rels has a sharedStrings relationship
@@ -39,7 +40,19 @@ def view(data, universe):
             except ET.ParseError:
                 out["wellformed"] = False
     blob = b"\n".join(parts.values())
-    out["present"] = sorted(s for s in universe if s.encode("utf-8") in blob)
+    # a string counts as present when it occurs in the raw bytes of any part, or as the text of a string
+    # item / inline string once its runs are concatenated (a rich text is stored run by run)
+    joined = []
+    for n, b in parts.items():
+        if n.endswith(".xml"):
+            try:
+                root = ET.fromstring(b)
+            except ET.ParseError:
+                continue
+            for el in root.iter():
+                if el.tag in ("{%s}si" % NS["m"], "{%s}is" % NS["m"]):
+                    joined.append(_si_text(el))
+    out["present"] = sorted(s for s in universe if s.encode("utf-8") in blob or any(s in j for j in joined))
     out["has_part"] = "xl/sharedStrings.xml" in parts
     sst = []
     if out["has_part"]:
